@@ -133,7 +133,7 @@ def run(ctx):
         "property_failures_on_impl": len(prop_bad),
         "distribution": {"leaves": meta.get("leaves"), "conntrack_cases": meta.get("conntrack_cases"), "mixed_runs": meta.get("mixed_runs"),
                          "mixed_requests": meta.get("mixed_requests"), "mixed_connections": meta.get("mixed_connections"),
-                         "path_tree_valuations_proved": 311040},
+                         "path_tree_valuations_proved": 622080},
         "samples": [{"exchange_cases": meta.get("samples")}],
         "race_detector_run": race_note,
     }
